@@ -234,6 +234,8 @@ def run_property(prop, tier, seed):
         res = D.run_workers(exe, prop, seed, total, chunk, timeout_per_chunk=tmo, extra_args=extra)
     sig = D.distinct_sigs(exe, res.sig_files)
     cov = native_coverage(prop, res, sig)
+    if res.foreign_crashes:
+        cov["library_crashes_left_to_their_owner_checks"] = res.foreign_crashes
     if prop in D.HUGE_PROFILES:
         cov["multi_gib_episode"] = ("skipped: did not finish within its wall-clock allowance on this tree (slow, not judged)"
                                     if res.huge_skipped else "ran (family %d)" % D.HUGE_FAMILY)
@@ -295,6 +297,11 @@ def run_property(prop, tier, seed):
                 return 1
     # required reach (a probe stuck at zero means the workload must change)
     problems = reach_problems(prop, res)
+    if problems and res.foreign_crashes:
+        # workers that the library crashed wrote no report: the reach counters
+        # are incomplete, not the workload
+        D.log("note: reach counters incomplete after %d library crashes (%s)" % (res.foreign_crashes, "; ".join(problems)))
+        problems = []
     if problems:
         raise D.HarnessError("workload did not reach what it must: " + "; ".join(problems))
     # other substrates
